@@ -41,6 +41,8 @@ fn groups(tier: Tier) -> Vec<Vec<(&'static str, PropLit)>> {
         // the most negative value; keys whose byte length differs from their character count
         vec![("b", I(i64::MIN)), ("größe", I(42))],
         vec![("名前", S("n".into())), ("ñ", B(true)), ("a", I(7))],
+        // values with characters that need escaping, with braces, and a value that looks like another key
+        vec![("a", S("q\"b\\n".into())), ("b", S("{a} {{b}}".into())), ("ab", S("a".into()))],
         // keys that a case style would rewrite: a key is the identifier as written, whatever serialize_all says
         vec![("Teacher", S("t".into())), ("maxStudents", I(30)), ("min_len", B(true))],
     ];
